@@ -84,9 +84,9 @@ def poly_only(r: R, chk, quals: List[str], rule="POLY-ONLY", floor: int = 1):
                     n += 1
                     name = fi.params[i]
                     ok = (f"{name}.weights is None", True) in facts
-                    if not ok and (f"{name}.weights is None", False) in facts and _homogeneous_numerators(fi, name):
-                        # the path knows that `name` is rational and works in homogeneous coordinates: the polynomial operator is
-                        # applied to the weighted points w_i*P_i and to the weights (WEIGHT-HOMOG decides that the result is divided back)
+                    if not ok and _homogeneous_numerators(fi, name):
+                        # the function works in homogeneous coordinates for `name`: the polynomial operator is applied to the weighted
+                        # points w_i*P_i and to the weights (WEIGHT-HOMOG decides that what is stored is divided back correctly)
                         ok = True
                     chk.ob(rule, f"{q}: `{seg(cr.node, 40)}` (polynomial basis of `{name}`) only where `{name}.weights is None`", ok, loc=r.loc(ctx, cr.node),
                            detail="" if ok else f"{q}: `{seg(cr.node, 60)}` works on the polynomial B-spline basis of `{name}`'s knot vector, but the path has not established `{name}.weights is None`: for a rational `{name}` the polynomial basis is used with the weights ignored",
@@ -172,6 +172,9 @@ def refine_both(r: R, chk, qual: str, rule="REFINE-BOTH"):
 def path_facts_avoiding(ctx, nid: int, avoid: Set[int]):
     """facts (condition text, polarity) that hold on every path from the entry to nid that avoids `avoid`"""
     cfg = ctx.cfg
+    from .common import local_aliases, unalias
+
+    _al = local_aliases(ctx.fi.node)
     facts = set()
     for t in cfg.nodes:
         if t.kind != "test" or t.id in avoid:
@@ -191,7 +194,7 @@ def path_facts_avoiding(ctx, nid: int, avoid: Set[int]):
                         continue
                     todo.append(s)
             if nid not in seen:
-                c = t.ast
+                c = unalias(t.ast, _al)
                 parts = [c]
                 if isinstance(c, ast.BoolOp) and ((isinstance(c.op, ast.And) and pol) or (isinstance(c.op, ast.Or) and not pol)):
                     parts = c.values
@@ -765,11 +768,32 @@ def jacobian(r: R, chk, quals: List[str], rule="JACOBIAN"):
         ctx = r.root(q)
         fi = ctx.fi
         wnames = set()
+
+        def is_weights(e) -> bool:
+            calls = [c for c in ast.walk(e) if isinstance(c, ast.Call)]
+            if any(any(f.startswith(IA) for f in funcrefs(ctx, c.func)) for c in calls):
+                return True
+            return isinstance(e, ast.Call) and seg(e.func) in ("np.array", "tuple", "list") and any(isinstance(x, ast.Name) and x.id in wnames for x in ast.walk(e))
+
+        single = {}
         for a in ast.walk(fi.node):
             if isinstance(a, ast.Assign) and len(a.targets) == 1 and isinstance(a.targets[0], ast.Name):
-                calls = [c for c in ast.walk(a.value) if isinstance(c, ast.Call)]
-                if any(any(f.startswith(IA) for f in funcrefs(ctx, c.func)) for c in calls) or any(isinstance(x, ast.Name) and x.id in wnames for x in ast.walk(a.value)) and isinstance(a.value, ast.Call) and seg(a.value.func) in ("np.array", "tuple", "list"):
-                    wnames.add(a.targets[0].id)
+                single.setdefault(a.targets[0].id, []).append(a.value)
+        for _ in range(3):
+            for a in ast.walk(fi.node):
+                if not isinstance(a, ast.Assign) or len(a.targets) != 1:
+                    continue
+                t, v = a.targets[0], a.value
+                if isinstance(t, ast.Name) and (is_weights(v) or (isinstance(v, ast.Name) and v.id in wnames)):
+                    wnames.add(t.id)
+                elif isinstance(t, ast.Tuple):
+                    # `nodes, weights = (f(n), g(n))`, possibly through one local holding the tuple
+                    if isinstance(v, ast.Name) and len(single.get(v.id, [])) == 1:
+                        v = single[v.id][0]
+                    if isinstance(v, ast.Tuple) and len(v.elts) == len(t.elts):
+                        for tt, vv in zip(t.elts, v.elts):
+                            if isinstance(tt, ast.Name) and (is_weights(vv) or (isinstance(vv, ast.Name) and vv.id in wnames)):
+                                wnames.add(tt.id)
         loops = []
         for lp in ast.walk(fi.node):
             if isinstance(lp, ast.For) and isinstance(lp.target, ast.Tuple) and len(lp.target.elts) == 2 and all(isinstance(e, ast.Name) for e in lp.target.elts) and isinstance(lp.iter, ast.Call) and seg(lp.iter.func) == "zip" and len(lp.iter.args) == 2 and all(isinstance(x, ast.Subscript) and isinstance(x.slice, ast.Slice) for x in lp.iter.args):
@@ -1239,3 +1263,30 @@ def mangle_like(fi, attr: str) -> str:
     from ..index import mangle
 
     return mangle(fi.clsname, attr)
+
+
+def edges_establishing(ctx, fact):
+    """edges (test node id, label) after which the normalised fact (text, polarity) holds: the conjuncts of a true `and` /
+    the disjuncts of a false `or` / the test itself"""
+    from .c08 import norm_fact
+    from .common import local_aliases, unalias
+
+    al = local_aliases(ctx.fi.node)
+    out = set()
+    for t in ctx.cfg.nodes:
+        if t.kind != "test":
+            continue
+        for lab, pol in (("t", True), ("f", False)):
+            c = unalias(t.ast, al)
+            parts = [c]
+            if isinstance(c, ast.BoolOp) and ((isinstance(c.op, ast.And) and pol) or (isinstance(c.op, ast.Or) and not pol)):
+                parts = c.values
+            elif isinstance(c, ast.BoolOp):
+                parts = []
+            for p_ in parts:
+                pp, q = p_, pol
+                while isinstance(pp, ast.UnaryOp) and isinstance(pp.op, ast.Not):
+                    pp, q = pp.operand, not q
+                if norm_fact(pp, q) == fact:
+                    out.add((t.id, lab))
+    return out
